@@ -9,7 +9,7 @@ from .. import env
 from .. import gen, build, mcase, monitors, oracles
 
 ID = "C03"
-CASES = {"quick": 3000, "thorough": 300000}
+CASES = {"quick": 10000, "thorough": 300000}
 MIN_CASES_PER_SHARD = 50
 CASE_TIMEOUT = 40
 RULE = ("one case = generated map x trace (length 1, 2, 3..; outliers at the first, second and last position; gaps; repeats) x configuration "
@@ -92,7 +92,7 @@ def check_case(ctx, case):
 
 
 TECHNIQUE = "runtime monitoring: oracle over the returned (states, index) pair and the live lattice after every public call of generated histories"
-LEVEL_TEXT = ("3k (quick) / 300k (thorough) histories, ~2.5 judged results each: alignment of the best path with the observations, one emitting state per "
+LEVEL_TEXT = ("{Q} (quick) / {T} (thorough) histories, ~2.5 judged results each: alignment of the best path with the observations, one emitting state per "
               "matched observation, returned list = path keys (collapsed iff unique), index = last column with a live emitting entry, empty result iff "
               "no admissible first candidate. Held-on-observed.")
 LEVEL_NOTE = "Trusted: the lattice reading (stop flags, layers). Traces <= 9 observations."
